@@ -717,6 +717,15 @@ func (e *SpecEnv) call(x *ast.CallExpr) T {
 			sfail("contains: want ([]string, string), got (%s, %s)", sl.Sort, xx.Sort)
 		}
 		return e.ex.sliceContains(e.cur, sl, xx)
+	case "defined":
+		// defined(res_X_i): the path ghost exists on the current path (a call of X happened at top level). Decided at
+		// translation time; lets a clause speak about "the visit of this iteration" only where there was one.
+		id, ok := x.Args[0].(*ast.Ident)
+		if !ok {
+			sfail("defined: argument must be an identifier")
+		}
+		_, has := e.vars[id.Name]
+		return Bool(has)
 	case "ghost":
 		// ghost(name): current value of a ghost counter (see PState.Ghost)
 		id, ok := x.Args[0].(*ast.Ident)
